@@ -18,6 +18,7 @@ package main
 
 import (
 	"fmt"
+	"go/types"
 	"strings"
 
 	"golang.org/x/tools/go/ssa"
@@ -374,47 +375,86 @@ func (r *rwRT) ruleSig() {
 	c.min("RW.SIG", 2)
 	fn := r.method("rewriter", "collectYieldFunc")
 	c.fn(relName(fn))
-	n := 0
-	var walk func(f *ssa.Function)
-	walk = func(f *ssa.Function) {
-		for _, b := range f.Blocks {
-			for i, ins := range b.Instrs {
-				mu, ok := ins.(*ssa.MapUpdate)
-				if !ok {
-					continue
+	pos := r.w.FnPos(fn)
+	// The traversal callbacks of collectYieldFunc are driven over `func F() { Yield() }` with the type
+	// oracles answering that F's signature is NOT a generator's (result is not the iterator type; not exactly
+	// one result): on no path may F end up recorded as a generator — whatever the recording looks like (a map
+	// update, a helper call, a store into the rewriter). With a proper signature the recording must happen.
+	yieldObj := Sym{Name: "obj:Yield", NN: true, Uniq: true}
+	for _, tc := range []struct {
+		name     string
+		isIter   bool
+		nResults int64
+		wantMark bool
+	}{
+		{"result type is not the iterator type", false, 1, false},
+		{"no result", true, 0, false},
+		{"two results", true, 2, false},
+		{"one result of the iterator type", true, 1, true},
+	} {
+		tc := tc
+		d := r.newApplyDriver(fn, []AV{Sym{Name: "r", NN: true}, Sym{Name: "pkg", NN: true}, Sym{Name: "f", NN: true}},
+			rwConfig{root: fn, boundaries: map[string]bool{"collectYieldFunc": false}},
+			map[string]AV{"r.yieldFunc": yieldObj, "r.yieldFromFunc": Sym{Name: "obj:YieldFrom", NN: true, Uniq: true}},
+			func(cc *CallCtx) []Answer {
+				if cc.Fn == nil {
+					return nil
 				}
-				// map is a field of the rewriter
-				field := ""
-				if u, ok := mu.Map.(*ssa.UnOp); ok {
-					if fa, ok := u.X.(*ssa.FieldAddr); ok {
-						field = fieldName(fa.X.Type(), fa.Field)
+				switch cc.Fn.Name() {
+				case "Callee":
+					return []Answer{{Ret: []AV{yieldObj}, NoEvent: true}}
+				case "isIterator":
+					return []Answer{{Ret: []AV{mkBool(tc.isIter)}, NoEvent: true}}
+				case "Len":
+					if strings.Contains(fnPkgPath(cc.Fn), "go/types") {
+						return []Answer{{Ret: []AV{mkInt(tc.nResults)}, NoEvent: true}}
+					}
+				case "TypeOf":
+					tp := r.w.importedPkg(pathRw, "go/types")
+					if tp != nil {
+						return []Answer{{Ret: []AV{Dyn{T: types.NewPointer(tp.Scope().Lookup("Signature").Type()), V: Sym{Name: "sig", NN: true}}}, NoEvent: true}}
 					}
 				}
-				if !strings.HasPrefix(field, "yieldFunc") {
-					continue
-				}
-				n++
-				// a call of a closure that performs signature assertions must precede in the same block
-				guarded := false
-				for j := 0; j < i; j++ {
-					if call, ok := b.Instrs[j].(*ssa.Call); ok {
-						if r.isSignatureCheck(call) {
-							guarded = true
-						}
+				return nil
+			})
+		F := r.node("FuncDecl", "F")
+		call := r.node("CallExpr", "call")
+		marked, completed := false, false
+		sts := []*State{d.base}
+		for _, stp := range []struct {
+			cb   string
+			node AV
+		}{{"pre", F}, {"pre", call}, {"post", call}, {"post", F}} {
+			cb := d.pre
+			if stp.cb == "post" {
+				cb = d.pst
+			}
+			var next []*State
+			for _, st := range sts {
+				for _, o := range d.step(st, cb, stp.node) {
+					if !o.Panicked {
+						next = append(next, o.St)
 					}
 				}
-				c.check(guarded, "RW.SIG", "marking "+field+" in "+relName(f), r.w.Pos(mu.Pos()),
-					"the function is marked as generator only after its signature was checked (single result of the iterator type)",
-					"a function is recorded as generator without a dominating signature check: a generator with the wrong result signature would be rewritten instead of rejected")
+			}
+			sts = next
+		}
+		for _, st := range sts {
+			completed = true
+			for _, e := range st.Events[len(d.base.Events):] {
+				if e.Kind == "mapupdate" || (e.Kind == "store" && strings.HasPrefix(e.Target, "r.")) {
+					marked = true
+				}
 			}
 		}
-		for _, a := range f.AnonFuncs {
-			walk(a)
+		r.account(d.in)
+		if tc.wantMark {
+			c.check(completed && marked, "RW.SIG", tc.name, pos, "the function is recorded as a generator", "a function with a proper generator signature is not recorded")
+		} else {
+			c.check(!marked, "RW.SIG", tc.name, pos,
+				"rejected: the function is never recorded as a generator (every path ends in the diagnostic)",
+				"a function containing a Yield is recorded as generator although its signature is wrong ("+tc.name+"): it would be rewritten instead of rejected")
 		}
-	}
-	walk(fn)
-	if n == 0 {
-		c.und("RW.SIG", "marking sites", r.w.FnPos(fn), "no store into yieldFuncDecls/yieldFuncLits found in collectYieldFunc")
 	}
 }
 
